@@ -324,6 +324,7 @@ type World struct {
 	ys       yieldState
 	evMu     sync.Mutex
 	evBuf    []string
+	synN     int // synthetic committees made so far (block-proof scenario)
 	kmHold   *kmHold
 	avoidHash []byte // adversary: prefer certificates for another block than this one (the honest lock)
 	stimAny  bool  // a clock advance is in progress (real timers of any node may fire)
@@ -399,7 +400,7 @@ func (w *World) Committee(h uint64) []interfaces.CommitteeMember {
 	// heights beyond the generated range reuse the last generated committee
 	var top uint64
 	for k := range w.comms {
-		if k > top {
+		if k > top && k < syntheticHeightBase {
 			top = k
 		}
 	}
